@@ -31,4 +31,47 @@ PROPS = {
             "multipleOf: when present only n = 0 is probed (0 is a multiple of every number)",
         ],
     },
+    "C16": {
+        "level": "proof",
+        "verus": {
+            "extractor": "extract.py",
+            "baseline": "baseline_obligations.json",
+            "functions": ["name", "from", "assign", "assign_type", "id_to_option", "type_to_option", "id_to_box"],
+            "rlimit_quick": 10, "rlimit_thorough": 30,
+        },
+        "functions": [
+            {"path": "typify-impl/src/lib.rs", "fn": "assign"},
+            {"path": "typify-impl/src/lib.rs", "fn": "assign_type"},
+            {"path": "typify-impl/src/lib.rs", "fn": "id_to_option"},
+            {"path": "typify-impl/src/lib.rs", "fn": "type_to_option"},
+            {"path": "typify-impl/src/lib.rs", "fn": "id_to_box"},
+            {"path": "typify-impl/src/type_entry.rs", "fn": "name", "impl": r"^impl TypeEntry\b"},
+            {"path": "typify-impl/src/type_entry.rs", "fn": "from", "impl": r"^impl From<TypeEntryDetails> for TypeEntry"},
+        ],
+        "clauses": [
+            "assign: returns the old next_id, increments it, leaves the four maps unchanged",
+            "assign_type P1: representation invariant wf preserved; index coherence preserved",
+            "assign_type P2: next_id monotone (+0/+1), result < next_id",
+            "assign_type P3: every identifier handed out earlier keeps resolving to the same entry",
+            "assign_type P4: no by-name / structural / reference index entry is re-pointed",
+            "assign_type P5: unnamed non-reference entry: structural reuse returns the indexed id and changes nothing; otherwise exactly one fresh id, one index entry, one id_to_entry entry",
+            "assign_type P6: named entry: by-name reuse returns the indexed id and changes nothing; otherwise exactly one fresh id recorded under the name",
+            "id_to_option / id_to_box / type_to_option: the same guarantees for the Option<T> / Box<T> entry they build",
+        ],
+        "not_decided": [
+            "convert_ref_type's unconditional name_to_id.insert / id_to_entry.insert, the pre-assignment and finalisation loops of add_ref_types_impl / add_type_with_name, break_cycles' in-place edits: outside the subset Verus accepts (closures capturing &mut self, enumerate, Vec<&mut T>) and too large for Kani (B-trees with more than one entry)",
+            "the rendered output never contains two definitions of one name (token level)",
+            "batch-splitting independence",
+        ],
+        "checker_cmd": "python3 verus/extract.py /repo gen.rs && verus gen.rs --output-json --time --rlimit 10",
+        "trusted_base": ["Verus 0.2026.09.13 + Z3", "vstd specifications of BTreeMap::{get,insert}, String::clone, Into::into",
+                         "verus/prelude.rs (opaque Schema / serde_json::Value, five-field TypeSpace)", "verus/extract.py drop list D1-D7"],
+        "explanation": "Function bodies are extracted byte-identically from /repo on every run and verified against contracts for all inputs and all map contents, function by function (callers see only callee contracts).",
+        "assumptions": [
+            "derived Clone impls of TypeId and TypeEntryDetails return a value equal to their argument (two assume_specification items)",
+            "keys_lawful(): the Ord impls of TypeId, String, RefKey and TypeEntryDetails are lawful, so the B-tree maps behave as mathematical maps; for TypeEntryDetails this is true only on unnamed kinds, and wf proves named kinds and references never become keys of type_to_id",
+            "every other TypeSpace field (settings, definitions, cache, defaults, uses_*) is dropped from the extracted struct; the extractor fails if an extracted body mentions one",
+            "the unverified ingestion code calls these functions with a well-formed state (wf) and next_id < u64::MAX",
+        ],
+    },
 }
